@@ -1,52 +1,109 @@
 """C13 - df_slice keeps exactly the rows in the interval; stitching switches at bounds.
 
 TLA+ (spec/Slice.tla) decides; this driver renders abstract series (timestamps = integers on a time grid,
-bounds = grid positions, 0 = None) into pd.Series / pd.DataFrame with a DatetimeIndex and datetime /
-datetime.time bounds, calls df_slice / df_unslice and encodes what came back."""
+bounds = grid positions, 0 = None) into pd.Series / pd.DataFrame with a DatetimeIndex (naive or in a time zone,
+sorted, possibly with repeated timestamps) and datetime / datetime.time bounds, calls df_slice / df_unslice and
+encodes what came back."""
 import datetime, math, warnings
 import numpy as np
 import pandas as pd
 from harness.x_pool import pmap
+from harness.core import Machinery
 
 NAN = -1
 BASE = datetime.datetime(2021, 3, 1)
 COLNAMES = ['a', 'b', 'c']
+# how an abstract case of the date / time-of-day universes is dressed: naive, or in a zone (no clock change within
+# the days that a time-of-day case touches: 2021-03-01 .. 2021-03-10)
+TZS = [None, 'UTC', None, 'Europe/London', 'America/New_York', None, 'Asia/Kolkata', 'fixed-180']
+# the clock-change days of the zone model of Slice.tla: (kind, minutes elapsed since midnight at the change, minutes
+# of the change) -> (zone, the civil day of the change); "s" = clocks forward, "f" = back
+ZONES = {
+    ('s', 60, 60): [('Europe/London', '2021-03-28'), ('Europe/Lisbon', '2022-03-27')],
+    ('s', 120, 60): [('America/New_York', '2021-03-14'), ('Europe/Berlin', '2021-03-28'), ('Australia/Sydney', '2021-10-03')],
+    ('f', 120, 60): [('Europe/London', '2021-10-31'), ('America/New_York', '2021-11-07')],
+    ('f', 180, 60): [('Europe/Berlin', '2021-10-31'), ('Australia/Sydney', '2021-04-04')],
+    ('s', 120, 30): [('Australia/Lord_Howe', '2021-10-03')],
+    ('f', 120, 30): [('Australia/Lord_Howe', '2021-04-04')],
+}
+
+
+def tzinfo_of(name):
+    if not name:
+        return None
+    if name.startswith('fixed'):
+        return datetime.timezone(datetime.timedelta(minutes=int(name[5:])))
+    return name
 
 
 class Clock(object):
-    """grid <-> wall clock.  mode 'date': timestamp t = BASE + t*unit minutes.  mode 'tod': timestamp
-    d*B + k = BASE + d days + (k-1)*unit minutes, a bound k = the time of day (k-1)*unit minutes."""
-    def __init__(self, mode, B, unit):
-        self.mode, self.B, self.unit = mode, B, unit
+    """grid <-> wall clock.
+    mode 'date': timestamp t = BASE (in the zone, if any) + t*unit minutes of elapsed time.
+    mode 'tod' : timestamp d*B + k = the wall-clock reading BASE + d days + (k-1)*unit minutes (localised to the zone,
+                 if any); a bound k = the time of day (k-1)*unit minutes.
+    mode 'ltod': an index in zone tz; timestamp d*B + e = the instant (e-1)*unit minutes after the local midnight of
+                 the civil day day0 + (d-1); a bound k = the time of day (k-1)*unit minutes; todslot() reads the
+                 wall-clock time of day off a rendered timestamp.
+    btz: the zone in which a date bound is handed over (None = the zone of the index)."""
+    def __init__(self, mode, B, unit, tz=None, day0=None, btz=None):
+        self.mode, self.B, self.unit, self.tz, self.day0, self.btz = mode, B, unit, tz or None, day0, btz or None
+        self.tzi = tzinfo_of(self.tz)
+        self.base = pd.Timestamp(BASE, tz=self.tzi) if self.tz else BASE
+        if mode == 'ltod':
+            self.d0 = datetime.date.fromisoformat(day0)
+
+    def midnight(self, date):
+        return pd.Timestamp(datetime.datetime.combine(date, datetime.time())).tz_localize(self.tzi)
 
     def stamp(self, t):
         if self.mode == 'date':
-            return BASE + datetime.timedelta(minutes=t * self.unit)
-        return BASE + datetime.timedelta(days=t // self.B, minutes=(t % self.B - 1) * self.unit)
+            if not self.tz:
+                return BASE + datetime.timedelta(minutes=t * self.unit)
+            return self.base + pd.Timedelta(minutes=t * self.unit)
+        if self.mode == 'tod':
+            x = BASE + datetime.timedelta(days=t // self.B, minutes=(t % self.B - 1) * self.unit)
+            return x if not self.tz else pd.Timestamp(x).tz_localize(self.tzi)
+        return self.midnight(self.d0 + datetime.timedelta(days=t // self.B - 1)) + pd.Timedelta(minutes=(t % self.B - 1) * self.unit)
 
     def bound(self, b):
         if b == 0:
             return None
         if self.mode == 'date':
-            return self.stamp(b)
+            x = self.stamp(b)
+            if self.tz:
+                x = (x.tz_convert(tzinfo_of(self.btz)) if self.btz else x).to_pydatetime()
+            return x
         m = (b - 1) * self.unit
         return datetime.time(m // 60, m % 60)
 
+    def todslot(self, ts):
+        """the wall-clock time of day that a timestamp of the index shows, as a slot"""
+        q = (ts.hour * 60 + ts.minute) / float(self.unit) + 1
+        return int(q) if q == int(q) and ts.second == 0 and ts.microsecond == 0 else -9
+
     def grid(self, ts):
         try:
-            ts = pd.Timestamp(ts).to_pydatetime()
+            ts = pd.Timestamp(ts)
+            if (ts.tzinfo is None) != (self.tz is None):
+                return -9                                   # the zone was dropped (or one appeared)
             if self.mode == 'date':
-                q = (ts - BASE).total_seconds() / 60.0 / self.unit
-            else:
+                q = (ts - self.base).total_seconds() / 60.0 / self.unit
+            elif self.mode == 'tod':
+                ts = (ts.tz_convert(self.tzi).tz_localize(None) if self.tz else ts).to_pydatetime()
                 d = (ts.date() - BASE.date()).days
                 k = (ts - datetime.datetime.combine(ts.date(), datetime.time())).total_seconds() / 60.0 / self.unit + 1
                 q = d * self.B + k if 1 <= k < self.B else -9
+            else:
+                ts = ts.tz_convert(self.tzi)
+                d = (ts.date() - self.d0).days + 1
+                e = (ts - self.midnight(ts.date())).total_seconds() / 60.0 / self.unit + 1
+                q = d * self.B + e if 1 <= e < self.B and d >= 0 else -9
             return int(q) if q == int(q) and 0 < q < 2 ** 31 - 1 else -9
         except Exception:
             return -9
 
     def index(self, rows):
-        return pd.DatetimeIndex([self.stamp(t) for t in rows])
+        return pd.DatetimeIndex([self.stamp(t) for t in rows], tz=self.tzi)
 
     def spec(self):
         return [self.mode, self.B, self.unit]
@@ -63,7 +120,7 @@ def cell(v):
 
 
 def series(clock, rows, col):
-    return pd.Series(np.array([float(v) for v in col], dtype=float), clock.index(rows))
+    return pd.Series(np.array([np.nan if v == NAN else float(v) for v in col], dtype=float), clock.index(rows))
 
 
 def frame(clock, s):
@@ -89,11 +146,17 @@ def exc(e):
 # the calls
 # ---------------------------------------------------------------------------------------------
 def observe_slice(case):
-    """case: {kind/mode, B, unit, s, lb, ub, oc, spelling}"""
+    """case: {kind/mode, B, unit, s, lb, ub, oc, spelling, tz, btz, day0}.  The observation repeats the input as the
+    rendered index shows it: for a zoned index (mode ltod) s.tod is the wall-clock time of day read off each row."""
     from pyg_base import df_slice
     mode = case.get('mode') or case['kind']
-    clock = Clock(mode, case['B'], case['unit'])
-    s = case['s']
+    clock = Clock(mode, case['B'], case['unit'], case.get('tz'), case.get('day0'), case.get('btz'))
+    s = {'rows': case['s']['rows'], 'cols': case['s']['cols']}
+    idx = clock.index(s['rows'])
+    if [clock.grid(x) for x in idx] != s['rows']:
+        raise Machinery('C13 driver: the rendered index does not read back as the abstract rows: %r' % (case,))
+    if mode == 'ltod':
+        s['tod'] = [clock.todslot(x) for x in idx]
     lb, ub = clock.bound(case['lb']), clock.bound(case['ub'])
     oc = ''.join(case['oc'])
     sp = case.get('spelling', 0)
@@ -120,7 +183,8 @@ def observe_slice(case):
             out = exc(e)
         runs.append({'carrier': carrier, 'out': out})
     return {'op': 'slice', 'mode': mode, 'B': case['B'], 'unit': case['unit'], 's': s, 'lb': case['lb'], 'ub': case['ub'],
-            'oc': case['oc'], 'spelling': sp, 'runs': runs}
+            'oc': case['oc'], 'spelling': sp, 'tz': case.get('tz') or '', 'btz': case.get('btz') or '', 'day0': case.get('day0') or '',
+            'runs': runs}
 
 
 def observe_session(case):
@@ -129,8 +193,10 @@ def observe_session(case):
     lists are read again.  For increasing bounds each stitched result is also handed to df_unslice and the recovered
     series are stitched again.  All series carry case['name'] (None or a shared name such as 'close')."""
     from pyg_base import df_slice, df_unslice
-    clock = Clock('date', 100, case['unit'])
+    clock = Clock('date', 100, case['unit'], case.get('tz'), None, case.get('btz'))
     ss, ubs, name = case['ss'], case['ubs'], case.get('name')
+    # df_unslice is claimed for stitched frames of series without repeated timestamps and without recorded NaNs
+    unslice = case.get('unslice', True) and not any(NAN in x['cols'][0] for x in ss)
     xs = [series(clock, s['rows'], s['cols'][0]) for s in ss]
     if name:
         for x in xs:
@@ -156,7 +222,7 @@ def observe_session(case):
             if {'rows': e0['rows'], 'cols': e0['cols']} != ss[i] and (i + 1) in ss_after:
                 ss_after[ss_after.index(i + 1)] = -8
         calls.append({'n': n, 'out': out, 'ubs_after': ubs_after, 'ss_after': ss_after})
-        if out['kind'] == 'val' and increasing and ubs_after == ubs:
+        if out['kind'] == 'val' and increasing and ubs_after == ubs and unslice:
             F = {'rows': out['rows'], 'cols': out['cols']}
             again = None
             try:
@@ -180,19 +246,26 @@ def observe_session(case):
                         again = exc(e)
             except Exception as e:
                 uo = exc(e)
-            unst.append({'op': 'unstitch', 'F': F, 'ubs': ubs, 'n': n, 'unit': case['unit'], 'named': bool(name), 'out': uo, 'again': again})
-    return [{'op': 'session', 'ss': ss, 'ubs': ubs, 'unit': case['unit'], 'named': bool(name), 'calls': calls}] + unst
+            unst.append({'op': 'unstitch', 'F': F, 'ubs': ubs, 'n': n, 'unit': case['unit'], 'named': bool(name), 'out': uo, 'again': again,
+                         'tz': case.get('tz') or '', 'btz': case.get('btz') or ''})
+    return [{'op': 'session', 'ss': ss, 'ubs': ubs, 'unit': case['unit'], 'named': bool(name), 'calls': calls,
+             'tz': case.get('tz') or '', 'btz': case.get('btz') or ''}] + unst
 
 
 def slice_kind(o):
-    if o['mode'] == 'tod' and o['lb'] and o['ub'] and o['lb'] > o['ub']:
-        return 'tod_wrap'
+    if o['mode'] in ('tod', 'ltod') and o['lb'] and o['ub'] and o['lb'] > o['ub']:
+        return o['mode'] + '_wrap'
     return o['mode']
+
+
+def has_dup(rows):
+    return any(a == b for a, b in zip(rows, rows[1:]))
 
 
 def key_slice(o, carrier=None):
     c = {'op': 'df_slice', 'kind': slice_kind(o), 'oc': ''.join(o['oc']), 'lb': o['lb'], 'ub': o['ub'], 's': o['s'],
-         'clock': [o['mode'], o['B'], o['unit']], 'spelling': o['spelling']}
+         'clock': [o['mode'], o['B'], o['unit']], 'spelling': o['spelling'], 'tz': o.get('tz', ''), 'btz': o.get('btz', ''),
+         'day0': o.get('day0', ''), 'dup': has_dup(o['s']['rows'])}
     if carrier:
         c['carrier'] = carrier
     return c
@@ -205,23 +278,37 @@ def key_stitch(o, k=None):
         k = 0 if k is None else k
         return {'op': 'df_slice', 'kind': 'stitch', 'n': o['calls'][k]['n'], 'k': len(o['ss']), 'direction': 'increasing' if inc else 'decreasing',
                 'has_empty': any(len(x['rows']) == 0 for x in o['ss']), 'named': o['named'], 'call': k + 1,
-                'ns': [c['n'] for c in o['calls']], 'ubs': o['ubs'], 'ss': o['ss'], 'unit': o['unit']}
-    return {'op': 'df_unslice', 'kind': 'unstitch', 'n': o['n'], 'k': len(o['ubs']), 'named': o['named'], 'ubs': o['ubs'], 'F': o['F'], 'unit': o['unit']}
+                'ns': [c['n'] for c in o['calls']], 'ubs': o['ubs'], 'ss': o['ss'], 'unit': o['unit'], 'tz': o.get('tz', ''), 'btz': o.get('btz', ''),
+                'dup': any(has_dup(x['rows']) for x in o['ss'])}
+    return {'op': 'df_unslice', 'kind': 'unstitch', 'n': o['n'], 'k': len(o['ubs']), 'named': o['named'], 'ubs': o['ubs'], 'F': o['F'], 'unit': o['unit'],
+            'tz': o.get('tz', ''), 'btz': o.get('btz', '')}
 
 
 # ---------------------------------------------------------------------------------------------
 # S2C: replay of the cases TLC enumerated
 # ---------------------------------------------------------------------------------------------
-S2C_UNIT = {'date': 720, 'tod': 150, 'stitch': 720}      # grid step in minutes
+S2C_UNIT = {'date': 720, 'tod': 150, 'stitch': 720}      # grid step in minutes (ltod: from the zone, see zone_of)
+
+
+def zone_of(z, i):
+    """the real zone / clock-change day / slot size that the zone model z = [kind, G, H] of a ltod case stands for"""
+    for unit in (60, 30):
+        zs = ZONES.get((z['kind'], (z['G'] - 1) * unit, z['H'] * unit))
+        if zs:
+            zone, day = zs[i % len(zs)]
+            return {'tz': zone, 'day0': day, 'unit': unit}
+    raise Machinery('C13 driver: no real zone for the zone model %r' % (z,))
 
 
 def s2c_chunk(cases):
     res = []
     for case in cases:
         viol, tolog, nevals, nt = [], [], 0, False
-        if case['kind'] in ('date', 'tod'):
-            o = observe_slice(dict(case, unit=S2C_UNIT[case['kind']]))
+        if case['kind'] in ('date', 'tod', 'ltod'):
+            o = observe_slice(dict(case, unit=case.get('unit') or S2C_UNIT[case['kind']]))
             want = case['want']
+            if case['kind'] == 'ltod' and o['s']['tod'] != case['s']['tod']:
+                raise Machinery('C13 driver: zone %s on %s does not show the wall clock of the zone model: %r' % (case['tz'], case['day0'], case))
             for r in o['runs']:
                 nevals += 1
                 w = want if r['carrier'] == 'df' else {'rows': want['rows'], 'cols': want['cols'][:1]}
@@ -233,6 +320,12 @@ def s2c_chunk(cases):
                 elif out['cols'] != w['cols']:
                     viol.append(('slice_values', key_slice(o, r['carrier']), {'expected': w['cols'], 'observed': out['cols']}))
             nt = 0 < len(want['rows']) < len(case['s']['rows'])
+        elif case['kind'] == 'dupsession':
+            # series with repeated timestamps, one column: TLC enumerated the arguments, Trace_Slice judges the answers
+            obs = observe_session(dict(case, unit=S2C_UNIT['stitch'], unslice=False))
+            nevals += len(obs[0]['calls'])
+            tolog.append(obs[0])
+            nt = len({c // 1000 for call in obs[0]['calls'] for col in call['out']['cols'] for c in col if c != NAN}) > 1
         else:
             # a session: the cases TLC printed for one (series list, bound list), replayed as consecutive calls on the
             # same argument objects; call k must return what TLC expects for its n and leave the arguments alone
@@ -327,20 +420,35 @@ def s2c(ctx, cases, tag):
     import json
     # TLC's workers print the cases in a schedule-dependent order: sort them (spellings, samples depend on the seed only)
     cases = sorted(cases, key=lambda c: json.dumps(c, sort_keys=True))
-    cases = [c for c in cases if c['kind'] != 'stitch'] + sessions_of([c for c in cases if c['kind'] == 'stitch'])
+    tells = {}
+    for c in cases:
+        for m in c.pop('tells', []):
+            tells[m] = tells.get(m, 0) + 1
+    for kind, mech in (('ltod', 'elapsed'), ('date', 'trimone')):
+        # the universes must contain the cases that tell the law from the re-implementations modelled in Slice.tla
+        if any(c['kind'] == kind for c in cases) and not tells.get(mech):
+            raise Machinery('vacuous: no %s case of %s tells the law from the mechanism model "%s"' % (kind, tag, mech))
+    cases = ([c for c in cases if c['kind'] in ('date', 'tod', 'ltod')] + sessions_of([c for c in cases if c['kind'] == 'stitch'])
+             + [{'kind': 'dupsession', 'ss': c['ss'], 'ubs': c['ubs'], 'ns': [1, 1], 'name': 'close' if g % 3 == 1 else None}
+                for g, c in enumerate(c for c in cases if c['kind'] == 'stitchdup')])
     for i, c in enumerate(cases):
         c['spelling'] = i % 12
+        if c['kind'] == 'ltod':
+            c.update(zone_of(c['z'], i))
+        else:
+            c['tz'] = TZS[(i // 12 + i) % len(TZS)]
+            c['btz'] = 'UTC' if c['tz'] and (i // 5) % 2 else None
     out = pmap(s2c_chunk, cases, chunk=400)
     tolog = []
     for i, (case, (viol, lg, nevals, nt)) in enumerate(zip(cases, out)):
         PENDING.extend(viol)
         tolog += lg
         ctx.evals += nevals
-        ctx.traces += len(case['wants']) if case['kind'] == 'session' else 1
+        ctx.traces += len(case['wants']) if case['kind'] == 'session' else 0 if case['kind'] == 'dupsession' else 1
         if nt:
-            ctx.note(('s2c', repr([case.get(k) for k in ('kind', 's', 'lb', 'ub', 'oc', 'ss', 'ubs', 'ns')])))
-        if i % 15013 == 11 or (case['kind'] == 'session' and i % 1013 == 5):
-            ctx.sample({'s2c_case_' + tag: case}, limit=6)
+            ctx.note(('s2c', repr([case.get(k) for k in ('kind', 's', 'lb', 'ub', 'oc', 'ss', 'ubs', 'ns', 'z')])))
+        if i % 15013 == 11 or (case['kind'] == 'session' and i % 1013 == 5) or (case['kind'] == 'ltod' and i % 3001 == 7):
+            ctx.sample({'s2c_case_' + tag: case}, limit=8)
     if tolog:
         judge(ctx, tolog)
 
@@ -364,7 +472,54 @@ def rand_bound(rng, pts, lo, hi):
     return rng.randrange(lo, hi + 1)                 # anywhere (mostly between)
 
 
+C2S_TZS = [None, None, None, 'UTC', 'Europe/London', 'America/New_York', 'Asia/Kolkata', 'Australia/Sydney', 'fixed-180', 'fixed330']
+C2S_CHANGES = sorted((zone, day, key[2]) for key, zs in ZONES.items() for zone, day in zs)     # (zone, clock-change day, minutes)
+
+
+def with_dups(rng, rows):
+    """some timestamps printed twice or three times (the index stays sorted)"""
+    out = []
+    for r in rows:
+        out += [r] * (rng.choice([2, 2, 3]) if rng.random() < 0.25 else 1)
+    return out
+
+
+def rand_zoned(rng):
+    """an intraday series in a zone with daylight saving around a clock-change day; bounds are times of day, most of
+    them on or within the size of the change of the wall-clock time of some row"""
+    zone, day, shift = rng.choice(C2S_CHANGES)
+    B = 2000
+    day0 = (datetime.date.fromisoformat(day) - datetime.timedelta(days=rng.choice([0, 0, 1, 2]))).isoformat()
+    clock = Clock('ltod', B, 1, zone, day0)
+    days = rng.sample(range(1, 5), rng.choice([1, 2, 3]))
+    step = rng.choice([1, 5, 15, 30, 60])
+    near = [m for m in range(0, 300, step)]                    # the small hours, where the clocks change
+    mins = sorted(set(rng.sample(near, min(len(near), rng.choice([1, 2, 4, 6]))) + rng.sample(range(0, 1380, step), rng.choice([0, 1, 3]))))
+    rows = sorted({clock.grid(clock.stamp(d * B + m + 1)) for d in days for m in mins if rng.random() < 0.85})
+    rows = [r for r in rows if r > 0]
+    if rng.random() < 0.2:
+        rows = with_dups(rng, rows)
+    tods = sorted({clock.todslot(clock.stamp(r)) for r in rows})
+
+    def bnd():
+        r = rng.random()
+        if r < 0.12 or not tods:
+            return 0 if r < 0.12 else rng.randrange(1, 1441)
+        k = rng.choice(tods)
+        if r < 0.5:
+            return k
+        if r < 0.85:
+            return max(1, min(1440, k + rng.choice([-1, 1]) * rng.choice([shift, shift, shift // 2, 1, shift + 1])))
+        return rng.randrange(1, 1441)
+    ncols = rng.choice([1, 2])
+    s = {'rows': rows, 'cols': [[rng.randrange(0, 1000000) for _ in rows] for _ in range(ncols)]}
+    return {'op': 'slice', 'mode': 'ltod', 'B': B, 'unit': 1, 's': s, 'lb': bnd(), 'ub': bnd(), 'oc': rng.choice(OCS), 'spelling': rng.randrange(0, 12),
+            'tz': zone, 'day0': day0}
+
+
 def rand_slice(rng):
+    if rng.random() < 0.25:
+        return rand_zoned(rng)
     ncols = rng.choice([1, 2, 2, 3])
     if rng.random() < 0.5:
         # daily-ish series on a minute grid: timestamps are minutes since BASE
@@ -386,18 +541,25 @@ def rand_slice(rng):
         lo, hi = 1, 1440
         bnd = lambda: rand_bound(rng, keys, lo, hi)
     lb, ub = bnd(), bnd()
+    if rng.random() < 0.2:
+        rows = with_dups(rng, rows)
+    tz = rng.choice(C2S_TZS)
     s = {'rows': rows, 'cols': [[rng.randrange(0, 1000000) for _ in rows] for _ in range(ncols)]}
-    return {'op': 'slice', 'mode': mode, 'B': B, 'unit': 1, 's': s, 'lb': lb, 'ub': ub, 'oc': rng.choice(OCS), 'spelling': rng.randrange(0, 12)}
+    return {'op': 'slice', 'mode': mode, 'B': B, 'unit': 1, 's': s, 'lb': lb, 'ub': ub, 'oc': rng.choice(OCS), 'spelling': rng.randrange(0, 12),
+            'tz': tz, 'btz': rng.choice([None, 'UTC', 'Asia/Tokyo']) if tz else None}
 
 
 def rand_stitch(rng):
     k = rng.choice([1, 2, 3, 4, 6])
     step = rng.choice([1440, 60])
+    dup = rng.random() < 0.15
     ss = []
     for i in range(k):
         n = rng.choice([0, 1, 5, 20, 40])
         pts = sorted(rng.sample(range(1, 61), min(n, 60)))
-        ss.append({'rows': [p * step for p in pts], 'cols': [[1000 * (i + 1) + p for p in pts]]})
+        if dup:
+            pts = with_dups(rng, pts)
+        ss.append({'rows': [p * step for p in pts], 'cols': [[1000 * (i + 1) + p if not dup else 1000 * (i + 1) + q for q, p in enumerate(pts)]]})
     ubs = sorted(rng.sample(range(1, 66), k))
     ubs = [u * step + rng.choice([0, 0, 1, -1, step // 2]) for u in ubs]
     ubs = sorted(set(ubs))
@@ -405,8 +567,16 @@ def rand_stitch(rng):
         ubs.append(ubs[-1] + step)
     if rng.random() < 0.35:
         ubs = ubs[::-1]
-    return {'op': 'session', 'ss': ss, 'ubs': ubs, 'ns': [rng.randrange(1, k + 1) for _ in range(rng.choice([1, 2, 2, 3]))], 'unit': 1,
-            'name': rng.choice([None, 'close', 'px'])}
+    dup = any(has_dup(x['rows']) for x in ss)
+    if rng.random() < 0.2:
+        # some prints are NaN (a row is a row whatever its value); often at the same time in every series that has the row
+        hole = set(rng.sample(range(1, 61), 6))
+        for x in ss:
+            x['cols'][0] = [NAN if (r // step in hole and rng.random() < 0.8) else v for r, v in zip(x['rows'], x['cols'][0])]
+    tz = rng.choice(C2S_TZS)
+    return {'op': 'session', 'ss': ss, 'ubs': ubs, 'unit': 1, 'unslice': not dup,
+            'ns': [1 if dup else rng.randrange(1, k + 1) for _ in range(rng.choice([1, 2, 2, 3]))],
+            'name': rng.choice([None, 'close', 'px']), 'tz': tz, 'btz': rng.choice([None, 'UTC']) if tz else None}
 
 
 def c2s(ctx, n_slice, n_stitch):
@@ -418,7 +588,7 @@ def c2s(ctx, n_slice, n_stitch):
         if o['op'] == 'slice':
             got = o['runs'][0]['out']
             if 0 < len(got['rows']) < len(o['s']['rows']):
-                ctx.note(('c2s', repr((o['s']['rows'], o['lb'], o['ub'], o['oc'], o['mode']))))
+                ctx.note(('c2s', repr((o['s']['rows'], o['lb'], o['ub'], o['oc'], o['mode'], o['tz'], o['day0']))))
         elif o['op'] == 'session' and len(o['ss']) > 1 and any(c['out']['rows'] for c in o['calls']):
             ctx.note(('c2s', repr((o['ss'], o['ubs'], [c['n'] for c in o['calls']]))))
     ctx.sample({'c2s_observation': obs[len(obs) // 3]})
@@ -429,16 +599,17 @@ def replay(ctx, body):
     """./check C13 --replay <file>: run the recorded case again and let Trace_Slice judge it"""
     import json, shutil
     c = body['case']
-    if c['kind'] in ('date', 'tod', 'tod_wrap'):
+    if c['kind'] in ('date', 'tod', 'tod_wrap', 'ltod', 'ltod_wrap'):
         mode, B, unit = c['clock']
         obs = [observe_slice({'mode': mode, 'B': B, 'unit': unit, 's': c['s'], 'lb': c['lb'], 'ub': c['ub'], 'oc': list(c['oc']),
-                              'spelling': c.get('spelling', 0)})]
+                              'spelling': c.get('spelling', 0), 'tz': c.get('tz'), 'btz': c.get('btz'), 'day0': c.get('day0')})]
     elif c['kind'] == 'stitch':
-        obs = observe_session({'ss': c['ss'], 'ubs': c['ubs'], 'ns': c.get('ns') or [c['n']], 'unit': c['unit'], 'name': 'close' if c.get('named') else None})[:1]
+        obs = observe_session({'ss': c['ss'], 'ubs': c['ubs'], 'ns': c.get('ns') or [c['n']], 'unit': c['unit'], 'name': 'close' if c.get('named') else None,
+                               'tz': c.get('tz'), 'btz': c.get('btz'), 'unslice': not c.get('dup')})[:1]
     else:
         # an unstitch case: rebuild the frame as df_slice returns it and call df_unslice again
         from pyg_base import df_unslice
-        clock = Clock('date', 100, c['unit'])
+        clock = Clock('date', 100, c['unit'], c.get('tz'), None, c.get('btz'))
         F, n = c['F'], c['n']
         x = series(clock, F['rows'], F['cols'][0]) if n == 1 else pd.DataFrame(
             {j: [np.nan if v == NAN else float(v) for v in col] for j, col in enumerate(F['cols'])}, index=clock.index(F['rows']))
@@ -457,12 +628,17 @@ def replay(ctx, body):
 
 
 def run(ctx):
-    ctx.rule = ('S2C: every (index subset, lb, ub, bracket pair) of the date and time-of-day universes and every (series list, '
-                'bound list, n) of the stitch universe that TLC enumerates is replayed through df_slice on pd.Series and '
-                'pd.DataFrame (df_unslice + re-stitching for increasing bound lists) and compared with == to the outcome TLC '
-                'printed; df_unslice results and the C2S runs (random daily/intraday series with gaps, random bounds, 1-6 series) '
-                'are judged by Trace_Slice.  Non-trivial = the slice keeps some but not all rows / the stitched result draws on '
-                'more than one series; distinct by the abstract case.')
+    ctx.rule = ('S2C: every (index subset, lb, ub, bracket pair) of the date and time-of-day universes - unique timestamps, and sorted '
+                'indexes that repeat timestamps -, every (zone model, rows around the clock change, time-of-day bounds, bracket pair) of '
+                'the zoned universe and every (series list, bound list, n) of the stitch universe that TLC enumerates is replayed through '
+                'df_slice on pd.Series and pd.DataFrame (df_unslice + re-stitching for increasing bound lists) and compared with == to the '
+                'outcome TLC printed; each date / time-of-day / stitch case is dressed as a naive index or as an index in one of 5 zones '
+                '(date bounds then zone-aware, in the zone of the index or in UTC), each zoned case is rendered in a real zone on a real '
+                'clock-change day (the wall clock read off the rendered index must be the one the zone model printed).  One-column '
+                'stitching of series with repeated timestamps, df_unslice results and the C2S runs (random daily / intraday series with '
+                'gaps, repeated timestamps, naive or in 7 zones, minute grids around 12 clock changes, random bounds, 1-6 series) are '
+                'judged by Trace_Slice.  Non-trivial = the slice keeps some but not all rows / the stitched result draws on more than one '
+                'series; distinct by the abstract case.')
     # the model of today's wrap-around branch breaks the law for brackets other than "(]" (design-level witness)
     ctx.mc('MC_Slice', 'MC_Slice_wrapmech.cfg', must_fail='WrapMechIsLaw', coverage=False)
     if ctx.quick:
@@ -476,10 +652,22 @@ def run(ctx):
     report(ctx)
     ctx.exhaustive = False
     ctx.assumptions += [
-        'indexes are sorted and free of duplicates; values are non-negative integer-valued floats (data independence)',
-        'small-scope: MC/S2C date slices on subsets of 5-6 (thorough 8) index points with bounds on a grid twice as fine; time-of-day '
-        'slices on 2 days x 3 (thorough 4) slots; stitching 1-3 (thorough 4) series over 2-4 index points; C2S series <= 60 points',
+        'indexes are sorted; a single slice (date or time-of-day bounds) also runs on indexes that repeat timestamps; stitching '
+        'series with repeated timestamps is claimed one column wide only and up to the number of rows shown per timestamp (deviation '
+        'DupMultiplicityFree: the statement says whose data a timestamp shows and "at most once"); n > 1 with repeated timestamps '
+        '(pandas cannot outer-join them) and df_unslice of such results stay outside; unsorted indexes stay outside (an interval of a '
+        'shuffled index is still defined, but the stitching sentence speaks of series in time order)',
+        'values are non-negative integer-valued floats (data independence)',
+        'an index in a time zone: the row\'s time of day is the wall-clock time the index itself shows (read with .hour/.minute off '
+        'the rendered timestamps, and required to equal the zone model\'s LocalTod in S2C); date bounds for a zoned index are '
+        'zone-aware datetimes (a naive bound against a zoned index is refused by pandas and is outside the domain)',
+        'small-scope: MC/S2C date slices on subsets of 5-6 (thorough 8) index points with bounds on a grid twice as fine, and 3 points '
+        'carrying up to 2 (thorough 3) rows each; time-of-day slices on 2 days x 3 (thorough 4) slots; zoned slices on 3 (thorough 5) '
+        'slots of the clock-change day + 2 of an ordinary day for 2 (thorough 7) zone models; stitching 1-3 (thorough 4) series over '
+        '2-4 index points; C2S series <= 60 points',
         'bounds are handed over as datetime.datetime / datetime.time (other spellings of a date are property C04); the bound pair is '
         'also spelled as a tuple and the brackets also as the letters c / o',
-        'df_unslice is exercised on frames that df_slice produced from NaN-free series with increasing bounds',
+        'series that record NaN values are stitched (a row is a row whatever its value) but not handed to df_unslice, which is '
+        'exercised on frames that df_slice produced from NaN-free series with increasing bounds (a stitched frame shows NaN also '
+        'where a series has no row)',
     ]
